@@ -68,6 +68,9 @@ func (s *sim) Next(rng *simcore.RNG) simcore.Op {
 	if done, _, _, _ := s.result(); done {
 		return nil
 	}
+	if s.mode == "wild" && s.idleOps > 60 && s.pendingCall() == nil {
+		return nil // nothing has happened at the application or on the wire for a long while
+	}
 	s.opsLeft--
 	wild := s.mode == "wild"
 	flag := func(n string) bool { return wild && s.cfg.Bool(n) }
@@ -388,6 +391,14 @@ func (s *sim) Apply(op simcore.Op) bool {
 	if s.initFailed {
 		return false
 	}
+	if done, _, _, _ := s.result(); done {
+		return false
+	}
+	// No two stimuli happen at the same instant: goroutines of the reactor that went to sleep in
+	// reaction to different stimuli (e.g. a fetcher left over from before a RETRY_SNAPSHOT and
+	// its successor) must not wake at one instant, their order would not be owned by the simulator.
+	time.Sleep(time.Millisecond + 3)
+	s.settle()
 	if done, _, _, _ := s.result(); done {
 		return false
 	}
